@@ -15,6 +15,7 @@ func writeEvidence(p *PropCfg, tier string, seed int, runs []harnessRun, validat
 	states, transitions := 0, int64(0)
 	var samples []interface{}
 	fnRepo, fnStd, fnModel := map[string]bool{}, map[string]bool{}, map[string]bool{}
+	stubbed := map[string]bool{}
 	queries := map[string]int{}
 	solverS := 0.0
 	reach := map[string]int{}
@@ -50,6 +51,9 @@ func writeEvidence(p *PropCfg, tier string, seed int, runs []harnessRun, validat
 			if len(samples) < 14 {
 				samples = append(samples, map[string]interface{}{"harness": r.cfg.Func, "witness_inputs": w.Draws, "observes": w.Observes})
 			}
+		}
+		for _, f := range rep.Stubbed {
+			stubbed[f] = true
 		}
 		for f := range rep.Functions {
 			switch {
